@@ -21,6 +21,7 @@ type Viol struct {
 	Clause string // oracle clause id (a sentence of the property statement)
 	Sig    string // signature: clause + the structural facts that make it fail (see DESIGN.md §2.5)
 	Detail string // observed vs expected, human readable
+	Sub    string // enumerations: the inner evaluation of a grouped case that produced it
 }
 
 // Step is the outcome of applying one event.
